@@ -111,6 +111,36 @@ def mbox_name_is_inside(name: str) -> bool:
 
 ####################################################################
 #
+def check_new_mbox_name(name: str) -> None:
+    """
+    Raise InvalidMailbox if `name` can not be the name of a new mailbox (one
+    made by CREATE or RENAME.)
+    """
+    # The mailbox has to be inside of the user's mail directory (and it can
+    # not be that directory itself.)
+    #
+    if not mbox_name_is_inside(name) or os.path.normpath(name) == os.curdir:
+        raise InvalidMailbox(f"Invalid mailbox name: '{name}'")
+
+    # There is one 'INBOX', in whatever case it is written.
+    #
+    if name.lower() == "inbox":
+        raise InvalidMailbox("Can not create a mailbox named 'inbox'")
+
+    if name.isdigit():
+        raise InvalidMailbox(
+            "Due to MH restrictions you can not create a "
+            f"mailbox that is just digits: '{name}'"
+        )
+    if any(not part.strip() for part in name.split("/")):
+        raise InvalidMailbox(
+            "Due to MH restrictions you can not create a "
+            f"root or mailbox that is just white space: '{name}'"
+        )
+
+
+####################################################################
+#
 def intersect(a: IMAPClientCommand, b: IMAPClientCommand) -> bool:
     """
     A helper function that determines if the msg_set_as_set for two
@@ -3079,26 +3109,11 @@ class Mailbox:
         #
         name = name[1:] if name and name[0] == "/" else name
 
-        # The mailbox has to be inside of the user's mail directory.
+        # The mailbox has to be inside of the user's mail directory, it can
+        # not be another 'INBOX' nor, because of MH rules, can any part of its
+        # name be just the digits 0-9 or blank.
         #
-        if not mbox_name_is_inside(name):
-            raise InvalidMailbox(f"Invalid mailbox name: '{name}'")
-
-        # You can not create 'INBOX' nor, because of MH rules, create a mailbox
-        # that is just the digits 0-9.
-        #
-        if name.lower() == "inbox":
-            raise InvalidMailbox("Can not create a mailbox named 'inbox'")
-        if name.isdigit():
-            raise InvalidMailbox(
-                "Due to MH restrictions you can not create a "
-                f"mailbox that is just digits: '{name}'"
-            )
-        if not name.strip():
-            raise InvalidMailbox(
-                "Due to MH restrictions you can not create a "
-                f"root or mailbox that is just white space: '{name}'"
-            )
+        check_new_mbox_name(name)
 
         # If the mailbox already exists than it can not be created. One
         # exception is if the mailbox exists but with the "\Noselect"
@@ -3327,9 +3342,10 @@ class Mailbox:
 
         # The new name has to be inside of the user's mail directory.
         #
+        # (And what goes for a name given to CREATE goes for it, too.)
+        #
         new_name = new_name[1:] if new_name[:1] == "/" else new_name
-        if not mbox_name_is_inside(new_name):
-            raise InvalidMailbox(f"Invalid mailbox name: '{new_name}'")
+        check_new_mbox_name(new_name)
 
         # A mailbox can not be moved inside of itself.
         #
